@@ -121,6 +121,22 @@ int connOrdinalOfFd(int fd)
 	return e ? e->conn : -1;
 }
 bool fdOpen(int fd) { return isSimFd(fd); }
+int openFdCount()
+{
+	int n = 0;
+	for (int i = 0; i < FDN; i++)
+		if (eps[i].st != Ep::FREE)
+			n++;
+	return n;
+}
+int openConnCount()
+{
+	int n = 0;
+	for (int i = 0; i < FDN; i++)
+		if (eps[i].st == Ep::CONN)
+			n++;
+	return n;
+}
 
 static int allocFd()
 {
